@@ -2,8 +2,9 @@
    a case is an operation name and a list of generic arguments; the answer is a generic
    output value.  The OCaml driver (eval/driver.ml) only parses / prints these types. *)
 From Coq Require Import String.
-From ArrRs Require Import Base Arr Index Axis Broadcast.
+From ArrRs Require Import Base Arr Index Axis Broadcast Lift.
 Open Scope string_scope.
+Open Scope list_scope.
 
 Inductive arg :=
 | AZ (z : Z)                                  (* integer scalar *)
@@ -108,7 +109,154 @@ Definition table_broadcast : list (string * (list arg -> out)) :=
        | [AAs l] => out_res oarrs (broadcast_arrays 0%Z (mkas l)) | _ => OBad end)
   ].
 
-Definition table : list (string * (list arg -> out)) := table_index ++ table_axis ++ table_broadcast.
+(* ---- C04: two-operand elementwise operations ---- *)
+Definition zin (l : list Z) (x : Z) : bool := existsb (Z.eqb x) l.
+
+(* placement only: the scalar function is pairing; pattern 0 = both operands stretched, 1 = argument
+   stretched to the receiver; zero_labels non-empty = the division family's zero-divisor guard *)
+Definition ew2 (pattern : Z) (a b : arr Z) (zero_labels : list Z) : out :=
+  if existsb (zin zero_labels) (elems b) then OErr EParam
+  else if (pattern =? 0)%Z then out_res oparr (lift2 0%Z (fun x y => (x, y)) a b)
+  else out_res oparr (zipop 0%Z (fun x y => (x, y)) a b).
+
+Definition zlift (f : Z -> Z -> Z) (args : list arg) : out :=
+  match args with [AA s1 e1; AA s2 e2] => orarr (lift2 0%Z f (mka s1 e1) (mka s2 e2)) | _ => OBad end.
+Definition zlift_guard (f : Z -> Z -> Z) (args : list arg) : out :=
+  match args with [AA s1 e1; AA s2 e2] => orarr (guarded_lift2 0%Z (Z.eqb 0) f (mka s1 e1) (mka s2 e2)) | _ => OBad end.
+Definition zzip (f : Z -> Z -> Z) (args : list arg) : out :=
+  match args with [AA s1 e1; AA s2 e2] => orarr (zipop 0%Z f (mka s1 e1) (mka s2 e2)) | _ => OBad end.
+
+Definition z_heaviside (x y : Z) : Z := if (x <? 0)%Z then 0%Z else if (x =? 0)%Z then y else 1%Z.
+Definition z_copysign (x y : Z) : Z := if (y <? 0)%Z then (- Z.abs x)%Z else Z.abs x.
+Definition z_lcm (x y : Z) : Z := let g := Z.gcd x y in if (g =? 0)%Z then 0%Z else (Z.abs x * Z.abs y / g)%Z.
+
+Definition table_ew2 : list (string * (list arg -> out)) :=
+  [ ("ew2", fun args => match args with
+       | [AS _; AA s1 e1; AA s2 e2; AZ pat; AL zl] => ew2 pat (mka s1 e1) (mka s2 e2) zl | _ => OBad end)
+  ; ("add", zlift Z.add); ("subtract", zlift Z.sub); ("multiply", zlift Z.mul)
+  ; ("divide", zlift_guard Z.quot); ("true_divide", zlift_guard Z.quot); ("floor_divide", zlift_guard Z.quot)
+  ; ("power", zlift Z.pow)
+  ; ("remainder", zlift_guard Z.rem); ("mod", zlift_guard Z.rem); ("fmod", zlift_guard Z.modulo)
+  ; ("bitwise_and", zlift Z.land); ("bitwise_or", zlift Z.lor); ("bitwise_xor", zlift Z.lxor)
+  ; ("left_shift", zlift Z.shiftl); ("right_shift", zlift Z.shiftr)
+  ; ("maximum", zzip Z.max); ("minimum", zzip Z.min); ("fmax", zzip Z.max); ("fmin", zzip Z.min)
+  ; ("gcd", zzip Z.gcd); ("lcm", zzip z_lcm)
+  ; ("heaviside", zzip z_heaviside); ("copysign", zzip z_copysign)
+  ].
+
+(* ---- C05: one-operand functions and closure iteration ---- *)
+Definition zmap (f : Z -> Z) (args : list arg) : out :=
+  match args with [AA s e] => orarr (map_arr f (mka s e)) | _ => OBad end.
+
+(* the harness' stateful closures, transcribed: state = (number of calls so far, log) *)
+Definition cl_map (e : bool) (s : Z * list Z) (i : nat) (x : Z) : (Z * list Z) * Z :=
+  let '(c, log) := s in
+  ((c + 1, log ++ (if e then [Z.of_nat i; x] else [x]))%Z, (x * 3 + c + (if e then 7 * Z.of_nat i else 0))%Z).
+Definition cl_filter (e : bool) (s : Z * list Z) (i : nat) (x : Z) : (Z * list Z) * bool :=
+  let '(c, log) := s in
+  ((c + 1, log ++ (if e then [Z.of_nat i; x] else [x]))%Z, Z.even (x + c + (if e then Z.of_nat i else 0))).
+Definition cl_filter_map (e : bool) (s : Z * list Z) (i : nat) (x : Z) : (Z * list Z) * option Z :=
+  let '(c, log) := s in
+  let v := (x + c + (if e then 5 * Z.of_nat i else 0))%Z in
+  ((c + 1, log ++ (if e then [Z.of_nat i; x] else [x]))%Z, if (v mod 3 =? 0)%Z then None else Some (2 * v)%Z).
+Definition cl_for_each (e : bool) (s : Z * list Z) (i : nat) (x : Z) : Z * list Z :=
+  let '(c, log) := s in ((c + 1)%Z, log ++ (if e then [Z.of_nat i; x; c] else [x; c])).
+
+Definition with_log {A} (f : A -> out) (r : (Z * list Z) * res A) : out :=
+  OList [out_res f (snd r); OZ (fst (fst r)); OL (snd (fst r))].
+
+Definition table_ew1 : list (string * (list arg -> out)) :=
+  [ ("ew1", fun args => match args with [AS _; AA s e] => orarr (map_arr (fun x => x) (mka s e)) | _ => OBad end)
+  ; ("negative", zmap Z.opp); ("positive", zmap (fun x => x)); ("absolute", zmap Z.abs); ("abs", zmap Z.abs)
+  ; ("fabs", zmap Z.abs); ("square", zmap (fun x => x * x)%Z)
+  ; ("floor", zmap (fun x => x)); ("ceil", zmap (fun x => x)); ("trunc", zmap (fun x => x)); ("fix", zmap (fun x => x))
+  ; ("sign", zmap (fun x => if (x <? 0)%Z then (-1)%Z else 1%Z))
+  ; ("map_log", fun args => match args with
+       | [AA s e] => with_log oarr (map_e (cl_map false) (0%Z, []) (mka s e)) | _ => OBad end)
+  ; ("map_e_log", fun args => match args with
+       | [AA s e] => with_log oarr (map_e (cl_map true) (0%Z, []) (mka s e)) | _ => OBad end)
+  ; ("filter_log", fun args => match args with
+       | [AA s e] => with_log oarr (filter_e (cl_filter false) (0%Z, []) (mka s e)) | _ => OBad end)
+  ; ("filter_e_log", fun args => match args with
+       | [AA s e] => with_log oarr (filter_e (cl_filter true) (0%Z, []) (mka s e)) | _ => OBad end)
+  ; ("filter_map_log", fun args => match args with
+       | [AA s e] => with_log oarr (filter_map_e (cl_filter_map false) (0%Z, []) (mka s e)) | _ => OBad end)
+  ; ("filter_map_e_log", fun args => match args with
+       | [AA s e] => with_log oarr (filter_map_e (cl_filter_map true) (0%Z, []) (mka s e)) | _ => OBad end)
+  ; ("for_each_log", fun args => match args with
+       | [AA s e] => let st := for_each_e (cl_for_each false) (0%Z, []) (mka s e) in OList [OZ (fst st); OL (snd st)]
+       | _ => OBad end)
+  ; ("for_each_e_log", fun args => match args with
+       | [AA s e] => let st := for_each_e (cl_for_each true) (0%Z, []) (mka s e) in OList [OZ (fst st); OL (snd st)]
+       | _ => OBad end)
+  ; ("fold_acc", fun args => match args with
+       | [AA s e; AZ init] => OZ (fold_arr (fun acc x => (acc * 3 + x)%Z) init (mka s e)) | _ => OBad end)
+  ; ("into_iter", fun args => match args with [AA s e] => OL (elems (mka s e)) | _ => OBad end)
+  ].
+
+(* ---- C20: operator overloads ---- *)
+Definition zop (name : Z) : option (Z -> Z -> Z) :=
+  match name with
+  | 0 => Some Z.add | 1 => Some Z.sub | 2 => Some Z.mul | 3 => Some Z.quot | 4 => Some Z.rem
+  | 5 => Some Z.land | 6 => Some Z.lor | 7 => Some Z.lxor
+  | _ => None
+  end%Z.
+Definition zop_is_div (name : Z) : bool := ((name =? 3) || (name =? 4))%Z.
+Definition zcmp (x y : Z) : option comparison := Some (x ?= y)%Z.
+Definition ocmp (c : option comparison) : out :=
+  match c with Some Lt => OZ (-1) | Some Eq => OZ 0 | Some Gt => OZ 1 | None => OZ 2 end.
+Definition obool (b : bool) : out := OZ (if b then 1 else 0)%Z.
+
+Definition table_ops : list (string * (list arg -> out)) :=
+  [ (* array (op) array: a native division by zero panics *)
+    ("op2", fun args => match args with
+       | [AZ o; AA s1 e1; AA s2 e2] =>
+         if (100 <=? o)%Z then (if nat_list_eqb (nats s1) (nats s2) then OPArr (nats s1) (combine e1 e2) else OPanic) else
+         match zop o with
+         | Some f => if nat_list_eqb (nats s1) (nats s2) && zop_is_div o && existsb (Z.eqb 0) e2 then OPanic
+                     else orarr (if (o <? 5)%Z then binop f (mka s1 e1) (mka s2 e2) else bitop f (mka s1 e1) (mka s2 e2))
+         | None => OBad end
+       | _ => OBad end)
+  ; ("op2a", fun args => match args with
+       | [AZ o; AA s1 e1; AA s2 e2] =>
+         if (100 <=? o)%Z then (if nat_list_eqb (nats s1) (nats s2) then OPArr (nats s1) (combine e1 e2) else OPanic) else
+         match zop o with
+         | Some f => if nat_list_eqb (nats s1) (nats s2) && zop_is_div o && existsb (Z.eqb 0) e2 then OPanic
+                     else orarr (binop_assign f (mka s1 e1) (mka s2 e2))
+         | None => OBad end
+       | _ => OBad end)
+  ; ("op2s", fun args => match args with
+       | [AZ o; AA s1 e1; AZ x] =>
+         if (100 <=? o)%Z then oarr (mka s1 e1) else
+         match zop o with
+         | Some f => if zop_is_div o && (x =? 0)%Z && negb (Nat.eqb (List.length e1) 0) then OPanic
+                     else if (o <? 5)%Z then orarr (binop_scalar f (mka s1 e1) x) else oarr (bitop_scalar f (mka s1 e1) x)
+         | None => OBad end
+       | _ => OBad end)
+  ; ("op2as", fun args => match args with
+       | [AZ o; AA s1 e1; AZ x] =>
+         if (100 <=? o)%Z then oarr (mka s1 e1) else
+         match zop o with
+         | Some f => if zop_is_div o && (x =? 0)%Z && negb (Nat.eqb (List.length e1) 0) then OPanic
+                     else oarr (binop_assign_scalar f (mka s1 e1) x)
+         | None => OBad end
+       | _ => OBad end)
+  ; ("neg", fun args => match args with [AA s e] => orarr (unop Z.opp (mka s e)) | _ => OBad end)
+  ; ("negp", fun args => match args with [AA s e] => oarr (mka s e) | _ => OBad end)
+  ; ("not", fun args => match args with
+       | [AA s e] => orarr (unop (fun x => if (x =? 0)%Z then 1%Z else 0%Z) (mka s e)) | _ => OBad end)
+  ; ("eq", fun args => match args with
+       | [AA s1 e1; AA s2 e2] => out_res obool (arr_eq Z.eqb (mka s1 e1) (mka s2 e2)) | _ => OBad end)
+  ; ("cmp", fun args => match args with
+       | [AA s1 e1; AA s2 e2] => out_res ocmp (arr_cmp zcmp (mka s1 e1) (mka s2 e2)) | _ => OBad end)
+  ; ("pairs", fun args => match args with
+       | [AA s1 e1; AA s2 e2] =>
+         if nat_list_eqb (nats s1) (nats s2) then OPArr (nats s1) (combine e1 e2) else OPanic
+       | _ => OBad end)
+  ].
+
+Definition table : list (string * (list arg -> out)) :=
+  table_index ++ table_axis ++ table_broadcast ++ table_ew2 ++ table_ew1 ++ table_ops.
 
 Fixpoint lookup (name : string) (t : list (string * (list arg -> out))) : option (list arg -> out) :=
   match t with
